@@ -99,6 +99,13 @@ void run_rotate(ThreadCtx &T, const Op &op, int opi) {
     T.fp = mix64(T.fp, (uint64_t) (a.rc >= 0) * 2 + (uint64_t) (d.rc >= 0));
 }
 
+// application ticket-key callback (runs with the library's ticket lock released): accept a cached key, refuse an unknown one
+int32 ticket_cb(void *keys, unsigned char name[16], short found) {
+    (void) keys; (void) name;
+    vs_point(VS_K_YIELD);
+    return found ? 0 : -1;
+}
+
 void thread_main(int idx, void *arg) {
     ThreadCtx &T = *(ThreadCtx *) arg;
     (void) idx;
@@ -127,6 +134,7 @@ static Plan c20_gen(uint64_t seed, int tier, uint64_t index) {
     static const int MASKS[] = { 0x1f, 0x1f, 0x11, 0x13, 0x1d, 0x19 };    // all; mutex+yield only; +alloc; ...
     p.cfg["kmask"] = MASKS[r.below(6)];
     if (r.chance(1, 4)) { p.cfg["pct"] = 1 + (int64_t) r.below(3); p.cfg["pspan"] = 200 + (int64_t) r.below(6000); }
+    if (r.chance(1, 2)) { p.cfg["tcb"] = 1; }      // the server application registers a session-ticket key callback
     int rotates = 0;
     for (int t = 0; t < nt; t++) {
         int nops = 2 + (int) r.below(3);
@@ -154,7 +162,7 @@ static std::vector<Plan> c20_fixed(int tier) {
             for (int d = 0; d < (tier ? 3 : 2); d++) {
                 for (int share = 0; share < 2; share++) {
                     Plan p; p.seed = 200000 + (uint64_t) (va * 1000 + vb * 100 + d * 10 + share);
-                    p.cfg["threads"] = 2; p.cfg["sid_kind"] = KK_EC256; p.cfg["ckshare"] = share; p.cfg["sden"] = DEN[d]; p.cfg["kmask"] = 0x1f;
+                    p.cfg["threads"] = 2; p.cfg["sid_kind"] = KK_EC256; p.cfg["ckshare"] = share; p.cfg["sden"] = DEN[d]; p.cfg["kmask"] = 0x1f; if ((va + vb + d) & 1) { p.cfg["tcb"] = 1; }
                     p.ops.push_back(Op("full", 0, va, 0, 1)); p.ops.push_back(Op("resume", 0, va, 0, 1)); p.ops.push_back(Op("full", 0, va, 0, 0));
                     p.ops.push_back(Op("full", 1, vb, 1, 1)); p.ops.push_back(Op("resume", 1, vb, 1, 1)); p.ops.push_back(Op("rotate", 1, 0, 0));
                     v.push_back(p);
@@ -179,6 +187,7 @@ static RunResult c20_exec(const Plan &p) {
         if (sh.skeys) {
             // two more ticket keys from the start, so that retiring the minting key leaves the server able to mint
             for (int id = 2; id <= 3; id++) { unsigned char n[16], sy[32], m[32]; ticket_key_material(id, n, sy, m); matrixSslLoadSessionTicketKeys(sh.skeys, n, sy, 32, m, 32); }
+            if (p.get("tcb")) { matrixSslSetSessionTicketCallback(sh.skeys, ticket_cb); }
         }
     }
     std::vector<ThreadCtx> T((size_t) nt);
